@@ -456,6 +456,24 @@ func targets() []*target {
 			params: []string{"(f_add_string : bytes -> bytes -> bytes -> bytes)", "(f_wrap_to : bytes -> Z -> Z -> bytes -> bytes)", "(s_name : bytes)", "(pc : unit)", "(pc_noColor pc_jsonMode : bool)", "(pc_buf : bytes)"},
 			result: "option bytes", final: "Some (pc_buf)"},
 
+		// ---- Entry.printSeverity: the level member / the bracketed tag of the configured width in the record's colours ----
+		{pkg: slogPkg, recv: "Entry", fn: "printSeverity", coq: "print_severity", file: "Layout", strict: true, fallback: "LayoutRef.print_severity_ref",
+			comment: "(returns pc.buf; None = panic)", panicT: "None", retfmt: "Some (%s)", effects: []string{"pc_buf"}, inlineVars: true,
+			opaque: map[string]string{"pc.noColor": "pc_noColor", "pc.lvl": "pc_lvl", "pc.clr": "pc_clr", "pc.bg": "pc_bg"},
+			calls: map[string]callSpec{
+				"*PrintCtx.AddString":            {state: "f_add_string pc_buf %0 %1"},
+				"*PrintCtx.pcAppendComma":        {state: "pc_append_comma pc_jsonMode pc_buf", partial: true},
+				"*PrintCtx.pcAppendByte":         {state: "pc_append_byte pc_buf %0", partial: true},
+				"colorizeToolS.wrapColorAndBgTo": {state: "f_wrap_to pc_buf %1 %2 %3", lazy: true},
+				"colorizeToolS.wrapRune":         {pure: "f_wrap_rune %0 %1 %2"},
+				"Level.String":                   {pure: "LevelNames.level_string m_levelToString %r"},
+				"Level.ShortTag":                 {pure: "LevelNames.short_tag m_shortTagMap m_levelToString %r %0", partial: true},
+			},
+			params: []string{"(f_add_string : bytes -> bytes -> bytes -> bytes)", "(f_wrap_to : bytes -> Z -> Z -> bytes -> bytes)", "(f_wrap_rune : bytes -> Z -> Z -> bytes)",
+				"(m_shortTagMap : list (Z * list (Z * bytes)))", "(m_levelToString : list (Z * bytes))", "(g_levelOutputWidth : Z)",
+				"(pc : unit)", "(pc_noColor pc_jsonMode : bool)", "(pc_lvl pc_clr pc_bg : Z)", "(pc_buf : bytes)"},
+			result: "option bytes", final: "Some (pc_buf)"},
+
 		// ---- the skeleton of printImpl after the blank-line rule (C02, C04-C06, C14): which part printers run,
 		// in what order, under which mode bit / flag; the level colours; ONE printOut of pc.Bytes() after End.
 		// The part printers are parameters over the context pc (LayoutRef.pcs)
@@ -885,7 +903,7 @@ var genFiles = [][2]string{
 	{"Termination", "Require Import Verif.Model.Base Verif.Model.Decision Verif.Model.GoSem Verif.Model.Terminate Verif.Model.TermRef."},
 	{"Context", "Require Import Verif.Model.Base Verif.Model.Decision Verif.Model.GoSem Verif.Model.Attrs Verif.Model.PcRef."},
 	{"Colors", "Require Import Verif.Model.Base Verif.Model.Decision Verif.Model.Dec Verif.Model.GoSem Verif.Model.ColorRef."},
-	{"Layout", "Require Import Verif.Model.Base Verif.Model.Decision Verif.Model.GoSem Verif.Model.LayoutRef.\nRequire Verif.Gen.Escapes Verif.Gen.Colors."},
+	{"Layout", "Require Import Verif.Model.Base Verif.Model.Decision Verif.Model.GoSem Verif.Model.LayoutRef.\nRequire Verif.Gen.Escapes Verif.Gen.Colors Verif.Gen.LevelNames."},
 	{"LevelNames", "Require Import Verif.Model.Base Verif.Model.Decision Verif.Model.Dec Verif.Model.GoSem Verif.Model.LevelRef."},
 }
 
